@@ -138,3 +138,13 @@ chk("C06", "exploration",
     "clang --target defines the numbers; no Rust is compiled for non-host targets (assertion evaluation on the host is C01/C02).",
     "runtime monitoring: cross-target differential of asserted numbers vs clang constant tables + model-driven completeness",
     "DESIGN.md §4 C06")
+
+chk("C04", "exploration",
+    "Generated C libraries (all scalar kinds, _Bool, char signedness, enums, typedefs, const/non-const pointers, array parameters, "
+    "by-value aggregates straddling the SysV classes, callbacks handed out by C, variadic tails, __asm__ labels, const and non-const "
+    "globals) compiled by clang and linked with a Rust caller generated from the model; every argument/return/global value is fixed by "
+    "the orchestrator and observed on the other side; declared parameter/return kinds, signedness, widths and pointer constness are "
+    "recovered from the bindings by trait inference on the function items and compared with C; link failures name the missing symbols.",
+    "x86_64 SysV host only (cross-target mangling is not executed); noreturn functions and C++ methods are not called.",
+    "runtime monitoring: differential call/return/global observation across the FFI boundary",
+    "DESIGN.md §4 C04")
